@@ -452,8 +452,10 @@ package circuitbreaker
 //@   ensures[identical-rules-are-equal] baseEq(r, newRule) && r.MaxAllowedRtMs == newRule.MaxAllowedRtMs && r.Threshold == newRule.Threshold && (newRule.Strategy == SlowRequestRatio || newRule.Strategy == ErrorRatio || newRule.Strategy == ErrorCount) ==> res
 //@   modifies nothing
 
+// (under C03 too: a breaker that inherits the window of a rule with another strategy or interval trips on figures that
+// are not its own)
 //@ func (r *Rule) isStatReusable(newRule) res
-//@   props C14
+//@   props C14, C03
 //@   requires r != nil
 //@   ensures[def] res <==> statReusable(r, newRule)
 //@   modifies nothing
